@@ -117,7 +117,9 @@ impl FeatureState for CombinedFeatureState {
     }
 
     fn accept_route_state(&self, route_ctx: &mut RouteContext) {
-        accept_route_state_with_states(&self.states, route_ctx)
+        // NOTE should not use a version which checks stale flag and clears the state: it is a nested call,
+        // so it would wipe out states of other features or skip update of its own states
+        self.states.iter().for_each(|state| state.accept_route_state(route_ctx));
     }
 
     fn accept_solution_state(&self, ctx: &mut SolutionContext) {
